@@ -557,6 +557,9 @@ class Engine:
         else:
             self.state = store
             self.state.set_value(self.initial_state)
+            # children of glob ports that the initial state names are
+            # created here: complete them with the declared defaults
+            self.state.apply_defaults()
             # build the processes' views
             self.state.build_topology_views()
             # get processes and topology from the store
